@@ -102,11 +102,52 @@ def conc_scenarios(tier, seed, which):
     return S
 
 
-def conc_stream(which, klass=0):
+def separate_shards(scen, workfile):
+    """Arena-level replay overlaps `store_str` calls of different threads, which is only possible when
+    their strings live in different shards of the string->key map: perturb strings until they do."""
+    import itertools
+    for _round in range(12):
+        with open(workfile, "w") as f:
+            for header, _ in scen:
+                f.write("\n".join(header) + "\n")
+        rc, out = sh([os.path.join(BIN, "conc"), "shards", workfile], timeout=600)
+        shard = {}
+        for l in out.splitlines():
+            t = l.split()
+            if len(t) == 3 and t[0] == "cshard":
+                shard[t[1]] = t[2]
+        changed = False
+        for header, _ in scen:
+            seen = {}
+            for hi, h in enumerate(header):
+                if not h.startswith("cthread") and not h.startswith("cprefill"):
+                    continue
+                toks = h.split()
+                for ti, tok in enumerate(toks[1:], 1):
+                    hexs = tok.split(":", 1)[1] if ":" in tok else tok
+                    if hexs == "-":
+                        continue
+                    sv = shard.get(hexs)
+                    owner = seen.get(sv)
+                    if owner is not None and owner != hi:
+                        b = bytearray.fromhex(hexs)
+                        b[-1] = 97 + ((b[-1] - 97 + 1 + _round) % 26)
+                        new = bytes(b).hex()
+                        toks[ti] = (tok.split(":", 1)[0] + ":" + new) if ":" in tok else new
+                        changed = True
+                    else:
+                        seen[sv] = hi
+                header[hi] = " ".join(toks)
+        if not changed:
+            return True
+    return False
+
+
+def conc_stream(which, klass=0, scen_fn=None, tag="c"):
     def run(ctx):
-        name = f"conc:{which}"
+        name = f"conc:{which}" if tag == "c" else f"conc-arena:{which}"
         work = ctx["work"]
-        prefix = os.path.join(work, f"conc-{which}-{ctx['seed']}")
+        prefix = os.path.join(work, f"conc{tag}-{which}-{ctx['seed']}")
         res = {"name": name, "I": [], "M": [], "stats": {}, "samples": []}
         for ext in ("f0", "ops", "impl", "oracle", "stats", "model", "progress"):
             try:
@@ -114,8 +155,13 @@ def conc_stream(which, klass=0):
             except FileNotFoundError:
                 pass
         tier = "thorough" if (ctx["tier"] == "thorough" or ctx.get("search")) else "quick"
-        scen = conc_scenarios(tier, ctx["seed"], which)
+        scen = (scen_fn or conc_scenarios)(tier, ctx["seed"], which)
         f0 = prefix + ".f0"
+        if tag == "a":
+            scen = [(list(h), g) for h, g in scen]
+            if not separate_shards(scen, f0):
+                res["M"].append({"kind": "harness", "what": f"{name}: could not place the scenario strings in distinct shards"})
+                return res
         with open(f0, "w") as f:
             for header, _ in scen:
                 f.write("\n".join(header) + "\n")
@@ -135,7 +181,7 @@ def conc_stream(which, klass=0):
             block = header[:1] + shard_lines + header[1:]
             p = subprocess.run([vlib.DRIVER], input="\n".join(block + gens) + "\n", stdout=subprocess.PIPE, text=True)
             outl = p.stdout.splitlines()
-            cruns = [l for l in outl if l.startswith("crun")]
+            cruns = [l for l in outl if l.startswith(tag + "run")]
             cruns = list(dict.fromkeys(cruns))
             # free schedules: arbitrary thread sequences, not restricted to what the model considers
             # enabled (a released thread that blocks simply proceeds later); oracle-only
@@ -146,7 +192,7 @@ def conc_stream(which, klass=0):
             frees = []
             for _ in range(nfree):
                 ln = rnd.randint(4, 8 * nthreads)
-                frees.append("cfree " + ",".join(str(rnd.randrange(nthreads)) for _ in range(ln)))
+                frees.append(tag + "free " + ",".join(str(rnd.randrange(nthreads)) for _ in range(ln * (3 if tag == "a" else 1))))
             n_sched += len(cruns) + len(frees)
             ops += block + cruns + frees
         with open(prefix + ".ops", "w") as f:
@@ -188,7 +234,7 @@ def conc_stream(which, klass=0):
         res["stats"].update({"scenarios": len(scen), "schedules_replayed": n_sched, "hangs": hangs})
         imp = read_lines(prefix + ".impl")
         for i, l in enumerate(ops):
-            if l.startswith("crun") and len(res["samples"]) < 2 and i < len(imp):
+            if l.startswith(tag + "run") and len(res["samples"]) < 2 and i < len(imp):
                 res["samples"].append({"schedule": l, "result": imp[i]})
         return res
     run.__name__ = f"conc_{which}"
@@ -296,3 +342,23 @@ PROPS = {
 }
 
 
+
+
+def arena_scenarios(tier, seed, which):
+    n = 40 if tier == "quick" else 600
+    ex = 200 if tier == "quick" else 3000
+    A, B, C, D = hx("aaa"), hx("bbbbb"), hx("cc"), hx("dddddddddddd")
+    S = []
+    if which == "C05":
+        # two threads reserving in the same block
+        S.append((["conc 4294967295 16 max", f"cthread i:{A} i:{C}", f"cthread i:{B}"], [f"agen {seed} {n}", f"aexhaust {ex}"]))
+        # the block fills up under the other thread's feet; both push new blocks
+        S.append((["conc 4294967295 4 max", f"cthread i:{A} i:{hx('xy')}", f"cthread i:{hx('wvu')} i:{C}"], [f"agen {seed + 1} {n * 2}"]))
+        # oversized string next to ordinary ones, three threads
+        S.append((["conc 4294967295 3 max", f"cthread i:{D}", f"cthread i:{A}", f"cthread i:{hx('ef')} i:{hx('g')}"], [f"agen {seed + 2} {n * 2}"]))
+    if which in ("C05", "C09"):
+        # limits close to the usage: blocks of 4, limit 12 resp. 9
+        S.append((["conc 4294967295 4 12", f"cthread i:{hx('abcde')}", f"cthread i:{hx('vwxyz')}", f"cthread i:{hx('lmnop')}"], [f"agen {seed + 3} {n * 2}", f"aexhaust {ex}"]))
+        S.append((["conc 4294967295 4 9", f"cthread i:{hx('abc')} i:{hx('de')}", f"cthread i:{hx('vwx')} i:{hx('yz')}"], [f"agen {seed + 4} {n * 2}"]))
+        S.append((["conc 4294967295 10 15", f"cprefill {hx('12345678')}", f"cthread i:{hx('abcde')}", f"cthread i:{hx('vwxyz')}"], [f"agen {seed + 5} {n}", f"aexhaust {ex}"]))
+    return S
